@@ -1,5 +1,6 @@
 import PysnarkModel.Driver.Proto
 import PysnarkModel.Driver.ProtoLC
+import PysnarkModel.Driver.ProtoSnarkjs
 open Pysnark Pysnark.Proto
 
 def handle (line : String) : String :=
@@ -7,6 +8,7 @@ def handle (line : String) : String :=
   | "P" :: rest => handleProg rest
   | "E" :: rest => ProtoLC.handleExpr rest
   | "I" :: rest => ProtoLC.handleInv rest
+  | "J" :: rest => ProtoSnarkjs.handleSnarkjs rest
   | _ => "bad-line"
 
 partial def loop (h : IO.FS.Stream) (out : IO.FS.Stream) : IO Unit := do
